@@ -275,12 +275,15 @@ UNITS["selector"] = {
         "append": ['#[cfg(kani)] #[path = "/verif/harness/selector/src/contracts.rs"] mod verif_contracts;'],
     }],
     "extraction": "items Nodes, ConsistencyError, Consistency, NodeSelector, DCAwareSelector (+ impl NodeSelector), select_n_nodes, NodeCycler (+ impls) cut verbatim from nodes_selector.rs; "
-                  "dropped attribute: #[instrument(..)] on select_n_nodes",
+                  "dropped attribute: #[instrument(..)] on select_n_nodes; the `{ .. }` body of the `Op::SetNodes {..} =>` arm of the actor loop in start_node_selector cut verbatim (block slice) and pasted "
+                  "into a hand-written wrapper fn whose parameters are the variables the arm uses (dropped: the surrounding loop, the channel, the GetNodes arm and its 2 s cache lookup)",
     "functions": ["DCAwareSelector::select_nodes", "select_n_nodes", "NodeCycler::next", "NodeCycler::from", "start_node_selector (the Op::SetNodes arm of its actor loop)"],
     "assumptions": [
         "rand::thread_rng / IteratorRandom::choose_multiple -> an ARBITRARY sub-selection of the requested size in iteration order (which elements are chosen is nondeterministic; their relative order is not permuted)",
         "SmallVec<[SocketAddr; 5]> / Vec -> vcoll::VVec; BTreeMap -> vcoll concrete map; SocketAddr -> opaque identifier; data-centre names are real Cow::Borrowed(&'static str) (no heap strings); tracing macros are no-ops",
         "layout precondition (what watch_membership_changes installs): every listed data centre is non-empty, addresses are pairwise distinct, the local node is a member of its own data centre, total_nodes is the sum",
+        "map storage inline (vcoll feature `inline`): heap objects are untyped byte arrays for CBMC (DESIGN.md 9.11/9.12); layout SHAPE concrete per harness; layouts with >= 3 data centres NOT decided (out of memory)",
+        "the selection cache is a stand-in recording only `clear()`; cached selections served by the GetNodes arm for up to 2 s are not under contract",
     ],
     "timeout_quick": 1200,
 }
@@ -527,11 +530,10 @@ _k("reg_lookup", "rpc_registry", "B", "ServerState::get_handler",
    "for every state satisfying I: a URI is dispatched iff its key is owned by a registered service, to the handler registered for it", bound=_RB)
 # add_handlers: the service and WHICH keys are added are concrete per harness (a symbolic service or key set exceeds 20 GB); the registry state
 # (who owns URIs 0 and 1, handler identities, empty entries) and the new handler identities stay symbolic. ~6 min / 7 GB each.
-for _n, _d, _t in (("reg_add_k0_s1", "one key (URI 0) to service b", "quick"), ("reg_add_k01_s0", "two keys (URIs 0,1) to service a", "quick"),
-                   ("reg_add_k0_s0", "one key (URI 0) to service a", "thorough"), ("reg_add_k0_s2", "one key (URI 0) to service c", "thorough"),
-                   ("reg_add_k01_s1", "two keys (URIs 0,1) to service b", "thorough"), ("reg_add_k01_s2", "two keys (URIs 0,1) to service c", "thorough"),
-                   ("reg_add_k2_s1", "one key (URI 2) to service b", "thorough"), ("reg_add_k13_s1", "two keys (URIs 1,3) to service b", "thorough"),
-                   ("reg_add_none_s1", "no key to service b", "thorough")):
+# Registered: the two combinations seen to pass on the unchanged tree (384 s and 360 s alone). The other seven (reg_add_k0_s0, _k0_s2, _k01_s1, _k01_s2, _k2_s1, _k13_s1,
+# _none_s1; kept in the harness file) ended *undecided* when run four at a time next to two other thorough checks (memory pressure) and could not be re-validated in the
+# session: an obligation that is not known to be decided on the unchanged tree is not registered.
+for _n, _d, _t in (("reg_add_k0_s1", "one key (URI 0) to service b", "quick"), ("reg_add_k01_s0", "two keys (URIs 0,1) to service a", "quick")):
     _k(_n, "rpc_registry", "B", "ServerState::add_handlers",
        "adding " + _d + " from any state satisfying I in which URIs 2,3 are unowned (a key is unowned or already owned by that service): the added handlers are served under the "
        "service, keys recorded under it (INCLUDING the keys it had before), everything else unchanged, I preserved", bound=_RB + "; added key set and service concrete per harness", tier=_t)
@@ -657,6 +659,7 @@ _AB = ("batch <= 3, ids/stamps symbolic and not assumed distinct, arbitrary will
        "timestamp order; reply Ok iff storage Ok")
 _k("ab_on_multi_set", "actor_bulk", "B", "KeyspaceActor::on_multi_set", _AB, bound="batch <= 3", tier="thorough")
 _k("ab_on_multi_del", "actor_bulk", "B", "KeyspaceActor::on_multi_del", _AB, bound="batch <= 3", tier="thorough")
+# ab_on_multi_{set,del}_2 (batch <= 2; kept in the harness file) are not registered: they are hardly cheaper than the batch <= 3 versions (455 s under load)
 
 # ---- Verus lemma layer (each file = shared exec kernels proved equal to spec kernels + lemmas)
 _v("lemmas_lww", "lemmas/lww.rs", "kernels k_insert/k_delete/k_cut/k_before/k_will_apply/k_lacks/k_max_stamp/k_safe; lemma layer",
@@ -773,7 +776,7 @@ PROPERTIES = {
                         "what is proved is the frame contract of the code in /repo"],
     },
     "C13": {
-        "obligations": ["reg_lookup", "reg_remove_step", "reg_add_k0_s1", "reg_add_k01_s0", "reg_add_k0_s0", "reg_add_k0_s2", "reg_add_k01_s1", "reg_add_k01_s2", "reg_add_k2_s1", "reg_add_k13_s1", "reg_add_none_s1", "dp_dispatch"] + [f"dp_path_{i}" for i in range(8)],
+        "obligations": ["reg_lookup", "reg_remove_step", "reg_add_k0_s1", "reg_add_k01_s0", "dp_dispatch"] + [f"dp_path_{i}" for i in range(8)],
         "level": "other",
         "explanation": "bounded contract checking (class B): one add/remove step from an ARBITRARY registry state satisfying the invariant, "
                        "within 3 services x 2 keys over 4 URIs -- an inductive step, so it covers every add/remove history inside that size; "
@@ -781,7 +784,7 @@ PROPERTIES = {
                        "for the request's own path is proved for every path (class P)",
         "assumptions": ["the dispatch glue try_handle_request is under contract (dp_dispatch: class P, any path; dp_path_*: concrete unusual paths) with the registry linked by contract; "
                         "hyper connection handling and handle_connection/handle_message (response framing) are read, not verified",
-                        "add_handlers: service and added key set concrete per harness (9 combinations), registry state symbolic"],
+                        "add_handlers: service and added key set concrete per harness (two combinations registered: one key to service b, two keys to service a), registry state symbolic"],
     },
     "C10": {
         "obligations": [
